@@ -93,6 +93,24 @@ UNITS += [
         /*@index_entry_only_for_a_stored_pack*/ r matches Ok(ix) ==> STORED(load.1, load.0.data@) && ix.id == load.1 && ix.time is Some,
 """),
 ]
+
+CPY = "crates/core/src/commands/copy.rs"
+UNITS += [
+    Unit(name="copy_tail", file=CPY, kind="block", within="pub(crate) fn copy<'a, R: IndexedFull, S: IndexedIds>(",
+         anchor="copy_blobs(trees, tree_repacker, p)?;", block_end="@fn_end",
+         block_sig="fn copy_tail(trees: VCopyList, tree_repacker: VCopier, p: ProgressR, indexer: &VDestIndexer, repo_dest: &VRepoR3, be_dest: &VDestBe, snaps: Vec<SnapshotFile>, w: &mut CopyWorld) -> (r: RusticResult<()>)",
+         block_tail="",
+         functions=["commands::copy::copy (tail: copy tree blobs, finalize the destination index, save the snapshots)"],
+         rewrites=[
+             Rw("copy_blobs(trees, tree_repacker, p)?;", "vcopy_tree_blobs(trees, tree_repacker, p, w)?;", why="copy_blobs (rayon) -> stub: tree blobs copied and their packer flushed"),
+             Rw("indexer.write().unwrap().finalize()?;", "indexer.vfinalize(w)?;", why="RwLock guard + Indexer::finalize -> stub: PRECONDITION 'all blobs copied'"),
+             Rw("be_dest.save_list(snaps.iter(), p)?;", "be_dest.vsave_snapshots(&snaps, p, w)?;", why="save_list of the copied snapshots -> effectful stub: PRECONDITION 'blobs and index durable'"),
+         ],
+         contract="""
+    requires old(w).data_copied@,   // the data blobs were copied (and their packer finalized) by the statement in front of this block
+    // (implicit obligations: the destination index is finalized after all blobs, the snapshots are saved last)
+"""),
+]
 KANI = []
 META = {"not_covered": [
     "the statement's quantifier (every prefix of every command's storage operations, any single failing operation): only the ordering of the straight-line parts listed under functions is decided",
